@@ -6,6 +6,7 @@ import json
 import os
 import re
 import shutil
+import resource
 import subprocess
 import tempfile
 import time
@@ -48,6 +49,11 @@ class TLCResult:
         return cov
 
 
+def _unlimit():
+    """The harness process runs under an address-space limit (framework.main); the JVM reserves its heap up front and must not."""
+    resource.setrlimit(resource.RLIMIT_AS, (resource.RLIM_INFINITY, resource.RLIM_INFINITY))
+
+
 def run(module_path, cfg_path=None, *, env=None, workers=1, timeout=3600, extra=(), defines=(), heap="4g", cwd=None):
     """Run TLC on a module. The module may live anywhere; spec/ mc/ trace/ gen/ are on the library path."""
     meta = tempfile.mkdtemp(prefix="tlcmeta_")
@@ -61,7 +67,8 @@ def run(module_path, cfg_path=None, *, env=None, workers=1, timeout=3600, extra=
     e.update(env or {})
     t0 = time.time()
     try:
-        p = subprocess.run(cmd, capture_output=True, text=True, env=e, timeout=timeout, cwd=cwd or os.path.dirname(module_path))
+        p = subprocess.run(cmd, capture_output=True, text=True, env=e, timeout=timeout, cwd=cwd or os.path.dirname(module_path),
+                           preexec_fn=_unlimit)
         out, rc = p.stdout + p.stderr, p.returncode
     except subprocess.TimeoutExpired as ex:
         out = (ex.stdout or b"").decode() if isinstance(ex.stdout, bytes) else (ex.stdout or "")
